@@ -309,7 +309,20 @@ func (e *Engine) loadContractFile(path string) error {
 				ps = append(ps, "("+a[:i]+" "+strings.TrimSpace(a[i+1:])+")")
 			}
 			e.SpecFns[sf.Name] = sf
-			e.SpecDefs = append(e.SpecDefs, fmt.Sprintf("(define-fun-rec sf_%s (%s) %s %s)", sf.Name, strings.Join(ps, " "), sf.Ret, m[4]))
+			body := m[4]
+			for {
+				i := strings.Index(body, "@cells(")
+				if i < 0 {
+					break
+				}
+				j := strings.Index(body[i:], ")")
+				t, err := e.resolveType(pkgPath, body[i+7:i+j])
+				if err != nil {
+					return err
+				}
+				body = body[:i] + fmt.Sprint(cellsOf(t)) + body[i+j+1:]
+			}
+			e.SpecDefs = append(e.SpecDefs, fmt.Sprintf("(define-fun-rec sf_%s (%s) %s %s)", sf.Name, strings.Join(ps, " "), sf.Ret, body))
 		case "requires", "ensures", "decreases":
 			if cur == nil {
 				return fmt.Errorf("clause outside func: %s", l)
@@ -880,18 +893,18 @@ func (env *SpecEnv) lookupLocal(name string) (SV, bool) {
 	// captured variable of a closure: the free variable is a pointer to the variable's cell
 	for _, fv := range fr.fn.FreeVars {
 		if fv.Name() == name {
-			if pv, ok := fr.vals[fv]; ok {
+			if _, ok := fr.vals[fv]; ok {
 				if pt, ok := underlying(fv.Type()).(*types.Pointer); ok {
-					return SV{T: pt.Elem(), V: fr.load(env.st, pv.C[0], pt.Elem())}, true
+					return SV{T: pt.Elem(), V: fr.loadViaIn(env.st, fv, pt.Elem())}, true
 				}
 			}
 		}
 	}
 	// address-taken local: load from its cell
 	if vs := fr.names["&"+name]; len(vs) == 1 {
-		if pv, ok := fr.vals[vs[0]]; ok {
+		if _, ok := fr.vals[vs[0]]; ok {
 			if pt, ok := underlying(vs[0].Type()).(*types.Pointer); ok {
-				return SV{T: pt.Elem(), V: fr.load(env.st, pv.C[0], pt.Elem())}, true
+				return SV{T: pt.Elem(), V: fr.loadViaIn(env.st, vs[0], pt.Elem())}, true
 			}
 		}
 	}
@@ -1288,6 +1301,28 @@ func init() {
 			}
 			famLeafSort[l.leaves[0].Arr] = l.leaves[0].Sort
 			return SV{S: "(Array Int " + l.leaves[0].Sort + ")", V: Val{C: []string{env.fr.q.get(env.st, l.leaves[0].Arr)}}}, nil
+		},
+		// memf(s, Field): the memory array holding field Field of the struct elements of slice s
+		"memf": func(env *SpecEnv, x *ast.CallExpr) (SV, error) {
+			a, err := env.eval(x.Args[0])
+			if err != nil {
+				return SV{}, err
+			}
+			sl, ok := underlyingOrNil(a.T).(*types.Slice)
+			if !ok {
+				return SV{}, fmt.Errorf("memf() of non-slice")
+			}
+			id, ok := x.Args[1].(*ast.Ident)
+			if !ok {
+				return SV{}, fmt.Errorf("memf(s, Field)")
+			}
+			for _, lf := range layoutOf(sl.Elem()).leaves {
+				if lf.Path == id.Name {
+					famLeafSort[lf.Arr] = lf.Sort
+					return SV{S: "(Array Int " + lf.Sort + ")", V: Val{C: []string{env.fr.q.get(env.st, lf.Arr)}}}, nil
+				}
+			}
+			return SV{}, fmt.Errorf("memf: no field %s", id.Name)
 		},
 		"ptr": func(env *SpecEnv, x *ast.CallExpr) (SV, error) {
 			a, err := env.eval(x.Args[0])
